@@ -2,13 +2,21 @@ package main
 
 import (
 	"os"
+	"runtime/pprof"
 
 	"verif/seq/fw"
 	"verif/seq/props/c16"
 )
 
 func main() {
+	if p := os.Getenv("C16_PROF"); p != "" { // private profiling aid
+		f, _ := os.Create(p)
+		pprof.StartCPUProfile(f)
+		defer pprof.StopCPUProfile()
+	}
 	c := fw.New("C16", os.Args[1], "exploration")
 	c16.Run(c)
-	os.Exit(c.Finish())
+	code := c.Finish()
+	pprof.StopCPUProfile()
+	os.Exit(code)
 }
